@@ -3,6 +3,7 @@ void registerEquivEngine();
 void registerImportEngine();
 void registerAnnotEngine();
 void registerPurityEngine();
+void registerHistoryEngine();
 
 extern "C" void cellsimRegisterEngines()
 {
@@ -10,4 +11,5 @@ extern "C" void cellsimRegisterEngines()
     registerImportEngine();
     registerAnnotEngine();
     registerPurityEngine();
+    registerHistoryEngine();
 }
